@@ -1,5 +1,5 @@
 import Exetera.Lemmas.JoinFlatSession
-import Exetera.Lemmas.JoinFlatSize
+import Exetera.Lemmas.JoinFlatSwap
 import Exetera.Lemmas.JoinFlatIndex
 import Exetera.Lemmas.JoinFlatDec
 /-!
@@ -138,33 +138,31 @@ example : orderedMergeLeft 2 ⟨true, true, .fields, true⟩ false true [1, 2, 2
 
 /-! ## `Session.ordered_merge_inner` -/
 
-/-- **inner results list exactly the matching pairs**: for sorted keys and truthful uniqueness flags the two maps
-    `ordered_merge_inner` computes are the left and the right column of `Spec.innerJoin`, so `_map_fields` lists, for
-    every payload, exactly the payload values of the matching pairs in (left, right) order.
-
-    `_partial`: the full statement `inner_lists_exactly_pairs` has no hypothesis `hcombo`; the combination
-    `left_unique=False, right_unique=True` runs `ordered_inner_map_left_unique` with the two sides swapped, and the lemma
-    that its output read back-to-front is again `innerJoin L R` (second-major order = first-major order when the first
-    column is duplicate-free) is not proved here; the correspondence run checks it on the exhaustive scope. -/
-theorem inner_lists_exactly_pairs_partial (lu ru : Bool) {L R : List Int} (hL : Sorted L) (hR : Sorted R)
-    (hlu : lu = true → L.Pairwise (· < ·)) (hru : ru = true → R.Pairwise (· < ·))
-    (hcombo : ¬ (lu = false ∧ ru = true)) :
+/-- **inner results list exactly the matching pairs**: for sorted keys and every truthful combination of the
+    uniqueness flags the two maps `ordered_merge_inner` computes are the left and the right column of `Spec.innerJoin` —
+    also for `left_unique=False, right_unique=True`, where the code runs `ordered_inner_map_left_unique` with the two
+    sides swapped and reads the result back swapped. -/
+theorem inner_lists_exactly_pairs (lu ru : Bool) {L R : List Int} (hL : Sorted L) (hR : Sorted R)
+    (hlu : lu = true → L.Pairwise (· < ·)) (hru : ru = true → R.Pairwise (· < ·)) :
     innerMaps lu ru L R = .ok (encodeInner (innerJoin L R)) :=
-  innerMaps_eq lu ru hL hR hlu hru (innerResultSize_eq hL hR) (fun h1 h2 => absurd ⟨h1, h2⟩ hcombo)
+  innerMaps_eq lu ru hL hR hlu hru (innerResultSize_eq hL hR) (fun _ h2 => orderedInnerMap_swapped hL (hru h2))
 
-/-- the payload columns `ordered_merge_inner` returns (no sinks) are the payloads mapped through the two maps -/
-theorem inner_payloads_partial (lu ru : Bool) {L R : List Int} (lxs rxs : List (List Int)) (hL : Sorted L) (hR : Sorted R)
+/-- … so the payload columns `ordered_merge_inner` returns (no sinks) or writes (Field sinks) are, for every numeric
+    payload, exactly the payload values of the matching pairs in (left, right) order. -/
+theorem inner_payloads (lu ru : Bool) {L R : List Int} (lxs rxs : List (List Int)) (hL : Sorted L) (hR : Sorted R)
     (hlu : lu = true → L.Pairwise (· < ·)) (hru : ru = true → R.Pairwise (· < ·))
-    (hcombo : ¬ (lu = false ∧ ru = true))
     (hl : ∀ xs ∈ lxs, xs.length = L.length) (hr : ∀ xs ∈ rxs, xs.length = R.length) (hln : lxs ≠ []) (hrn : rxs ≠ []) :
-    ∃ lcols rcols, orderedMergeInner lu ru L R (lxs.map .numeric) .none (rxs.map .numeric) .none =
-        .ok ⟨⟨some lcols, [], none⟩, ⟨some rcols, [], none⟩⟩ ∧
+    ∃ lcols rcols,
       MappedCols (encodeInner (innerJoin L R)).1 INVALID_INDEX lxs lcols ∧
-      MappedCols (encodeInner (innerJoin L R)).2 INVALID_INDEX rxs rcols := by
-  have hm := inner_lists_exactly_pairs_partial lu ru hL hR hlu hru hcombo
-  obtain ⟨lcols, h1, h2⟩ := mapFields_none (encodeInner (innerJoin L R)).1 INVALID_INDEX L.length
+      MappedCols (encodeInner (innerJoin L R)).2 INVALID_INDEX rxs rcols ∧
+      orderedMergeInner lu ru L R (lxs.map .numeric) .none (rxs.map .numeric) .none =
+        .ok ⟨⟨some lcols, [], none⟩, ⟨some rcols, [], none⟩⟩ ∧
+      orderedMergeInner lu ru L R (lxs.map .numeric) .fields (rxs.map .numeric) .fields =
+        .ok ⟨⟨none, lcols, none⟩, ⟨none, rcols, none⟩⟩ := by
+  have hm := inner_lists_exactly_pairs lu ru hL hR hlu hru
+  obtain ⟨lcols, h1, h2⟩ := mapM_mapValid (encodeInner (innerJoin L R)).1 INVALID_INDEX L.length
     (inRange_inner_left L R INVALID_INDEX) lxs hl
-  obtain ⟨rcols, h3, h4⟩ := mapFields_none (encodeInner (innerJoin L R)).2 INVALID_INDEX R.length
+  obtain ⟨rcols, h3, h4⟩ := mapM_mapValid (encodeInner (innerJoin L R)).2 INVALID_INDEX R.length
     (inRange_inner_right L R INVALID_INDEX) rxs hr
   have e1 : (lxs.map Payload.numeric).isEmpty = false := by
     cases lxs with
@@ -174,12 +172,13 @@ theorem inner_payloads_partial (lu ru : Bool) {L R : List Int} (lxs rxs : List (
     cases rxs with
     | nil => exact absurd rfl hrn
     | cons x xs => rfl
-  refine ⟨lcols, rcols, ?_, h2, h4⟩
-  simp only [orderedMergeInner, Sinks.count, Option.any_none, Bool.false_eq_true, if_false, e1, e2, hm, h1, h3]
+  refine ⟨lcols, rcols, h2, h4, ?_, ?_⟩
+  · simp only [orderedMergeInner, Sinks.count, Option.any_none, Bool.false_eq_true, if_false, e1, e2, hm, mapFields, h1, h3]
+  · simp only [orderedMergeInner, Sinks.count, Option.any_none, Bool.false_eq_true, if_false, e1, e2, hm, mapFields, h1, h3]
 
 example : innerMaps false false [1, 1, 2, 4, 4, 5] [1, 2, 2, 4, 6] = .ok (encodeInner (innerJoin [1, 1, 2, 4, 4, 5] [1, 2, 2, 4, 6])) := by
   decide
--- the combination excluded by `hcombo`, on a concrete input (duplicates on the left, right duplicate-free)
+-- the swapped combination on a concrete input (duplicates on the left, right duplicate-free)
 example : innerMaps false true [1, 1, 2, 4, 4, 5] [1, 2, 4, 6] = .ok (encodeInner (innerJoin [1, 1, 2, 4, 4, 5] [1, 2, 4, 6])) := by
   decide
 
